@@ -12,8 +12,10 @@ impl InstructionGenerator {
             ..
         } = s;
         self.generate_eval_select_case_expr(expr, pos);
+        self.select_depth += 1;
         self.generate_case_blocks(case_blocks, else_block.is_some(), pos);
         self.generate_else_block(else_block, pos);
+        self.select_depth -= 1;
         // need to pop value from stack because it was pushed by `generate_eval_select_case_expr`
         // (on every path: a matched CASE block jumps to the end-select label)
         self.label(labels::end_select(), pos);
